@@ -467,6 +467,10 @@ def raw_function(obj):
         elif isinstance(obj, types.FunctionType) and obj.__closure__ and obj.__name__ == 'inner' \
                 and 'func' in obj.__code__.co_freevars:
             obj = obj.__closure__[obj.__code__.co_freevars.index('func')].cell_contents   # context_property
+        elif isinstance(obj, types.FunctionType) and isinstance(getattr(obj, '__wrapped__', None), types.FunctionType):
+            # a functools.wraps wrapper (supp.project.request): the function itself is what is put under contract, the wrapper has a
+            # contract of its own (contracts/project.py: the call is made once, inside one change-checking context)
+            obj = obj.__wrapped__
         else:
             break
     return obj
